@@ -6,17 +6,17 @@ from mc.space import grammar as G
 from mc.space import layouts as L
 
 ONE_GAP = [('LF', '\n'), ('CRLF', '\r\n'), ('ML-COMMENT', ' /*\n*/ '),
-           ('COMMENT', ' /*c*/ '), ('LS', ' '),
+           ('COMMENT', ' /*c*/ '), ('LS', '\u2028'),
            ('LINE-COMMENT', ' //c\n')]
 UNIFORM = [('SP', ' '), ('LF', '\n'), ('CRLF', '\r\n'), ('CR', '\r'),
-           ('LS', ' '), ('SP-COMMENT-LF', ' /*c*/\n')]
+           ('LS', '\u2028'), ('SP-COMMENT-LF', ' /*c*/\n')]
 
 MULTILINE_TOKENS = [
     "x = 'a\\\nb' + c ;", "x = 'a\\\r\nb\\\rc' , d ;",
     '/* one\n two */ a = 1 ; /* three\r\n four */ b = 2 ;',
     "f ( 'a\\\n\\\nb' , \n c ) ; g ( )",
     "// c\n// d\nx = 1 ; // e\ny = 2 ;",
-    "var s = 'l1\\ l2' ; t ;",
+    "var s = 'l1\\\u2028l2' ; t ;",
 ]
 
 
